@@ -568,6 +568,18 @@ func (sr *storeRun) stateClass(op SOp, diff string) string {
 
 func (sr *storeRun) stateSignature(op SOp, diff string) string {
 	var n int
+	if strings.HasPrefix(diff, "Predecessors") && sr.gcRan && sr.sp.Kind == "oci" {
+		if st, ok := sr.store.(storeAPI); ok {
+			found := false
+			simrt.Observe(func() {
+				snap := takeSnapshot(st, sr.g, false, false)
+				found = sr.unindexedManifestOnDisk(snap) >= 0
+			})
+			if found {
+				return "stored-manifest-without-index-entry-after-gc"
+			}
+		}
+	}
 	if op.Op == "delete" && sr.sp.AutoGC {
 		if _, err := fmt.Sscanf(diff, "Exists(n%d): store=true model=false", &n); err == nil && !sr.graphKnown[n] {
 			return "autogc-misses-node-unknown-to-graph"
@@ -865,6 +877,24 @@ func (sr *storeRun) reopen(how string) *Verdict {
 	}
 	g := sr.g
 	var v *Verdict
+	if sr.p.id == "C09" {
+		// C09 only uses a reload as a step of the history; what a reload must
+		// preserve is C08's subject
+		if !sr.sp.AutoSave {
+			sr.store.(*oci.Store).SaveIndex()
+		}
+		simrt.Observe(func() {
+			s, err := oci.New(sr.dir)
+			if err != nil {
+				v = violation("reopen-failed", "", "reopen(new) failed: %v", err)
+				return
+			}
+			s.AutoGC, s.AutoSaveIndex = sr.sp.AutoGC, sr.sp.AutoSave
+			sr.store = s
+			sr.relearn()
+		})
+		return v
+	}
 	cur := sr.store.(*oci.Store)
 	if !sr.sp.AutoSave {
 		if err := cur.SaveIndex(); err != nil {
